@@ -440,7 +440,15 @@ def r_vs_autograd(c):
     outs, ins = c["outputs"], c["inputs"]
     rows = sum(prog[n].numel() for n in outs)
     w = np.asarray(arr(c["w"]), dtype=float) if c["agg"] == "constant" else (np.ones(rows) if c["agg"] == "sum" else np.ones(rows) / rows)
-    backward([prog[n] for n in outs], _weights_agg(c["agg"], c["w"]), inputs=[prog[n] for n in ins], parallel_chunk_size=c.get("chunk"))
+    if c["agg"] == "constant" and c.get("dtype") == "float64":
+        w = w * 1.1234567891 + 0.0123456789  # non-dyadic weights as well: a detour of the weights through float32 must be visible
+    A = _weights_agg(c["agg"], w.tolist())
+    if c.get("prior_float32"):
+        try:
+            A(torch.ones(rows, 1, dtype=torch.float32))  # the earlier call of the history, on a matrix of the other floating dtype
+        except (RuntimeError, TypeError, ValueError):
+            pass
+    backward([prog[n] for n in outs], A, inputs=[prog[n] for n in ins], parallel_chunk_size=c.get("chunk"))
     gts, off = [], 0
     for n in outs:
         k = twin[n].numel()
@@ -790,10 +798,13 @@ def r_accumulate(c):
     others = [n for n in leaf_names if n not in requested]
     other0 = {n: (None if prog[n].grad is None else (id(prog[n].grad), prog[n].grad.clone())) for n in others}
     if mode == "backward":
-        call = lambda: backward([prog["y1"], prog["y2"]], agg, inputs=(x for x in [prog["a"], prog["b"]]) if c.get("generator") else [prog["a"], prog["b"]],
+        ins = lambda: [prog[n] for n in requested]  # "a", "b" and possibly the unused leaf "u"
+        call = lambda: backward([prog["y1"], prog["y2"]], agg, inputs=(x for x in ins()) if c.get("generator") else ins(),
                                 retain_graph=True, parallel_chunk_size=c.get("chunk"))
     else:
-        call = lambda: mtl_backward([prog["loss0"], prog["loss1"]], prog["f"], agg, tasks_params=[[prog["q0"]], [prog["q1"]]], shared_params=[prog["p0"], prog["p1"]],
+        # an unused leaf may be requested as a shared parameter ("us") or as a parameter of the first task ("ut")
+        call = lambda: mtl_backward([prog["loss0"], prog["loss1"]], prog["f"], agg, tasks_params=[[prog["q0"]] + ([prog["ut"]] if "ut" in requested else []), [prog["q1"]]],
+                                    shared_params=[prog["p0"], prog["p1"]] + ([prog["us"]] if "us" in requested else []),
                                     retain_graph=True, parallel_chunk_size=c.get("chunk"))
     e = int(c.get("edit", 0))
     for k in range(int(c["n_calls"])):
@@ -816,7 +827,7 @@ def r_accumulate(c):
         # the update of this call, independently: slices of the aggregator's answer in the column order it saw
         M = agg.seen[-1].detach().numpy()
         v = (agg.cache_copy if agg.cached else agg.outs[-1]).detach().numpy()
-        shared = requested if mode == "backward" else ["p0", "p1"]
+        shared = requested if mode == "backward" else ["p0", "p1"] + (["us"] if "us" in requested else [])
         upd = None
         for pi in itertools.permutations(shared):
             if mode == "backward":
@@ -835,6 +846,8 @@ def r_accumulate(c):
         if mode == "mtl":
             upd["q0"] = prog.total_jac("q0")["loss0"][0].reshape(tuple(prog["q0"].shape))
             upd["q1"] = prog.total_jac("q1")["loss1"][0].reshape(tuple(prog["q1"].shape))
+            if "ut" in requested:
+                upd["ut"] = np.zeros(tuple(prog["ut"].shape))
         for n in requested:
             g = prog[n].grad
             b = before[n].numpy() if before[n] is not None else 0.0
